@@ -520,3 +520,126 @@ func hookLoopCalls(fn *ssa.Function, hk string) bool {
 	}
 	return false
 }
+
+// lostUpdateRule: in every method of the escrow keeper, a store into an escrow record object (whole or any field)
+// that the same function persists somewhere is followed, on every path to a nil-error return, by a persistence of
+// that object. A record changed after its last save leaves the store and the returned/cascaded copy disagreeing.
+func (c *Check) lostUpdateRule(rule string, kfuncs []*ssa.Function) {
+	l := c.L
+	n := 0
+	ord := map[string]int{}
+	for _, fn := range kfuncs {
+		if fn.Signature.Recv() == nil || fn.Parent() != nil {
+			continue
+		}
+		// objects persisted in fn, by root symbol
+		persisted := map[string]bool{}
+		rootOf := func(addr ssa.Value) ssa.Value {
+			for {
+				switch x := addr.(type) {
+				case *ssa.FieldAddr:
+					addr = x.X
+					continue
+				}
+				return addr
+			}
+		}
+		isRec := func(v ssa.Value) bool {
+			t := v.Type()
+			if p, ok := t.Underlying().(*types.Pointer); ok {
+				t = p.Elem()
+			}
+			ts := t.String()
+			return ts == escrowTypesPkg+".Account" || ts == escrowTypesPkg+".Payment"
+		}
+		var roots []ssa.Value
+		eachInstr(fn, func(i ssa.Instruction) {
+			st, ok := i.(*ssa.Store)
+			if !ok {
+				return
+			}
+			r := rootOf(st.Addr)
+			if !isRec(r) {
+				return
+			}
+			if _, isAlloc := r.(*ssa.Alloc); !isAlloc {
+				if _, isPar := r.(*ssa.Parameter); !isPar {
+					return
+				}
+			}
+			roots = append(roots, r)
+		})
+		for _, r := range roots {
+			rs := Sym(r)
+			if _, done := persisted[rs]; done {
+				continue
+			}
+			has := false
+			eachInstr(fn, func(i ssa.Instruction) {
+				if isPersistOf(i, func(v ssa.Value) bool { return Sym(v) == rs }, 0) {
+					has = true
+				}
+			})
+			persisted[rs] = has
+		}
+		eachInstr(fn, func(i ssa.Instruction) {
+			st, ok := i.(*ssa.Store)
+			if !ok {
+				return
+			}
+			r := rootOf(st.Addr)
+			rs := Sym(r)
+			if !isRec(r) || !persisted[rs] {
+				return
+			}
+			// the initial spill of a parameter is not an update, nor is a record handed back by a keeper method
+			// (loaded from the store, or already saved by that method: C03-R1 / this rule apply there)
+			if _, isPar := st.Val.(*ssa.Parameter); isPar && st.Addr == r {
+				return
+			}
+			if cv, _ := callOf(st.Val); cv != nil && st.Addr == r {
+				if g := cv.Call.StaticCallee(); g != nil && g.Signature.Recv() != nil && fnPkgPath(g) == escrowKeeperPkg {
+					return
+				}
+			}
+			pred := func(in ssa.Instruction) bool {
+				return isPersistOf(in, func(v ssa.Value) bool { return Sym(v) == rs }, 0)
+			}
+			okAll := true
+			detail := ""
+			for _, ret := range successReturns(fn) {
+				if !reachableFrom(st, ret) {
+					continue
+				}
+				if !mustPassFrom(fn, st, ret, pred) {
+					okAll = false
+					detail = "a path from this update to the nil-error return at " + l.Pos(ret.Pos()) + " does not save the record again: the stored record lags behind the one returned to callers and hooks"
+				}
+			}
+			n++
+			c.Analysed(fnName(fn))
+			what := strings.TrimPrefix(Sym(st.Addr), "&")
+			if a, isA := r.(*ssa.Alloc); isA && a.Comment == "complit" {
+				path := ""
+				for ad := st.Addr; ; {
+					fa, isFA := ad.(*ssa.FieldAddr)
+					if !isFA {
+						break
+					}
+					path = "." + fieldName(fa.X.Type(), fa.Field) + path
+					ad = fa.X
+				}
+				what = "new " + strings.TrimPrefix(a.Type().(*types.Pointer).Elem().String(), escrowTypesPkg+".") + path
+			}
+			key := fnName(fn) + "|" + what
+			ord[key]++
+			if ord[key] > 1 {
+				what += " #" + itoa(ord[key])
+			}
+			c.Ob(rule, "update of "+short(what)+" in "+fnName(fn)+" is saved before a successful return", st.Pos(), okAll, detail)
+		})
+	}
+	if n < 10 {
+		c.Fail("%s-%s lost instances: %d record updates", c.ID, rule, n)
+	}
+}
